@@ -127,6 +127,8 @@ def outcome_class(x, rid: int = 0, ref: t.Optional[RefResult] = None) -> tuple:
             return ('error', 'accepted-cause')
         return ('error', repr(token(oc[1])))
     if oc[0] == 'raised':
+        if ref is not None and ref.outcome[0] == 'fail' and token(oc[1]) in ref.outcome[1]:
+            return ('error', 'accepted-cause')
         return ('raised', repr(token(oc[1])))
     return oc
 
@@ -473,4 +475,51 @@ def m_saves(x, ref: RefResult, spec: dict, rid: int = 0) -> t.List[V]:
             nm = str(k).split('__', 1)[-1]
             if nm not in spec['nodes']:
                 out.append(('save-unknown-node', f'{k}'))
+    return out
+
+
+# ------------------------------------------------------------------------------- C12
+
+def m_retry(x, ref: RefResult, spec: dict, rid: int = 0) -> t.List[V]:
+    """Per-attempt invocation log, virtual-time gaps and get_default calls vs the reference."""
+    tr = Trace(x, rid)
+    out: t.List[V] = []
+    if x.status != 'done':
+        return out
+    oc = tr.outcome
+    complete = oc is not None and oc[0] == 'value'
+    by_node: t.Dict[str, list] = {}
+    for pos, n, i, kw, tm in tr.starts:
+        by_node.setdefault(n, []).append((i, kw, tm))
+    exp_by_node: t.Dict[str, list] = {}
+    for inv in ref.invocations:
+        exp_by_node.setdefault(inv.node, []).append(inv)
+    for n, got in by_node.items():
+        exp = exp_by_node.get(n, [])
+        if len(got) > len(exp):
+            out.append(('retry-too-many-attempts', f'{n} invoked {len(got)}x; reference {len(exp)}x'))
+        for (i, kw, tm), inv in zip(got, exp):
+            if norm(kw) != inv.kwargs:
+                out.append(('retry-kwargs-differ', f'{n}#{i} received {norm(kw)!r}; reference {inv.kwargs!r}'))
+    if complete:
+        for n, exp in exp_by_node.items():
+            if n in ref.certain and len(by_node.get(n, [])) < len(exp):
+                out.append(('retry-too-few-attempts', f'{n} invoked {len(by_node.get(n, []))}x; reference {len(exp)}x'))
+    # gaps between attempt i's end and attempt i+1's start
+    for (n, i0, i1, delay) in ref.gaps:
+        if (n, i0) in tr.ends and any(s[1] == n and s[2] == i1 for s in tr.starts):
+            t_end = tr.ends[(n, i0)][2]
+            t_start = [s[4] for s in tr.starts if s[1] == n and s[2] == i1][0]
+            if abs((t_start - t_end) - delay) > 1e-9:
+                out.append(('retry-wrong-delay', f'{n}: attempt {i1} started {t_start - t_end:g}s after attempt {i0} failed; configured delay {delay:g}s'))
+    # defaults
+    got_def = [(d[1], norm(d[2])) for d in tr.defaults]
+    exp_def = [(d[0], d[1]) for d in ref.defaults]
+    if complete:
+        if sorted(map(repr, got_def)) != sorted(map(repr, exp_def)):
+            out.append(('retry-default-calls', f'get_default calls {got_def!r}; reference {exp_def!r}'))
+    else:
+        for g in got_def:
+            if g not in exp_def:
+                out.append(('retry-default-calls', f'unexpected get_default call {g!r}; reference {exp_def!r}'))
     return out
